@@ -86,3 +86,19 @@ Theorem C09_source_body_dispatch : forall cl mt,
        (forall args, In ("b.bindData"%string, args) (events st') -> nth 2 args 0%Z = 77%Z).
 Proof. exact src_bindbody_dispatch. Qed.
 Print Assumptions C09_source_body_dispatch.
+
+(* the single-source binders (BindQueryParams, BindHeaders), from the same re-translated file: each hands bindData ITS source
+   under ITS tag - the query values under "query", the request headers under "header" -, once, and turns a failure into a 400;
+   [sym] is arbitrary: the statement is about WHICH constants reach bindData *)
+Theorem C09_source_bind_query_params : forall (sym : String.string -> Z) (dst err : Z),
+  let '(st', ret) := GoLite.run sym src_binder_bindqueryparams_results src_binder_bindqueryparams (single_start dst err) in
+  events st' = [("b.bindData"%string, [dst; sym "c.QueryParams()"%string; sym """query"""%string; sym "nil"%string])] /\
+  ret = [if (err =? sym "nil"%string)%Z then sym "nil"%string else bad_request sym].
+Proof. exact src_bind_query_params_spec. Qed.
+Print Assumptions C09_source_bind_query_params.
+Theorem C09_source_bind_headers : forall (sym : String.string -> Z) (dst err : Z),
+  let '(st', ret) := GoLite.run sym src_binder_bindheaders_results src_binder_bindheaders (single_start dst err) in
+  events st' = [("b.bindData"%string, [dst; sym "c.Request().Header"%string; sym """header"""%string; sym "nil"%string])] /\
+  ret = [if (err =? sym "nil"%string)%Z then sym "nil"%string else bad_request sym].
+Proof. exact src_bind_headers_spec. Qed.
+Print Assumptions C09_source_bind_headers.
